@@ -280,7 +280,7 @@ pub fn check(args: &[String]) -> i32 {
         let need: Vec<(&str, u64)> = match property.as_str() {
             "C05" => vec![("reask_after_exhaustion", c("reask_after_exhaustion")), ("exhaustions_observed", c("exhaustions_observed"))],
             "C22" => vec![("judged_operations", c("judged_operations")), ("timeouts_after_limit", c("timeouts_after_limit")), ("abandoned_query", c("abandoned_query")), ("reask_after_exhaustion", c("reask_after_exhaustion")), ("post_checks", c("post_checks"))],
-            _ => vec![("timer_fired_in_search", f("timer_fired_in_search")), ("cancel_won", f("cancel_won")), ("timeouts_after_limit", c("timeouts_after_limit")), ("solver_stall", f("solver_stall")), ("timer_thread_held_back", f("timer_thread_held_back"))],
+            _ => vec![("timer_fired_in_search", f("timer_fired_in_search")), ("cancel_won", f("cancel_won")), ("timeouts_after_limit", c("timeouts_after_limit")), ("solver_stall", f("solver_stall")), ("timer_thread_held_back", f("timer_thread_held_back")), ("cancel_lost_before_wait", f("cancel_lost_before_wait")), ("cancel_lost_thunk_in_flight", f("cancel_lost_thunk_in_flight")), ("stale_timer_fired", f("stale_timer_fired"))],
         };
         for (name, n) in need {
             if n == 0 {
